@@ -89,7 +89,30 @@ def fake_modules(host):
         setattr(socket_mod, v, socket_mod.AddressFamily(k))
     for k, v in km.items():
         setattr(socket_mod, v, socket_mod.SocketKind(k))
-    return {'errno': errno_mod, 'signal': signal_mod, 'socket': socket_mod}
+    mods = {'errno': errno_mod, 'signal': signal_mod, 'socket': socket_mod}
+    ident = HOST_OS.get(host)
+    if ident is not None:
+        # the os / sys / platform modules as the library's copy imports them: everything delegates to the real module, except
+        # what identifies the operating system and its text encodings
+        import ntpath
+        import os as real_os
+        import platform as real_platform
+        import posixpath
+        import sys as real_sys
+        osname, plat, system = ident
+        enc = HOST_ENC.get(host) or ('utf-8', 'surrogateescape')
+
+        def proxy(name, real, overrides):
+            m = types.ModuleType(name)
+            m.__dict__.update(overrides)
+            m.__dict__['__getattr__'] = lambda attr: getattr(real, attr)
+            return m
+        path_mod = proxy('posixpath', posixpath, {'normcase': ntpath.normcase} if osname == 'nt' else {})
+        mods['os'] = proxy('os', real_os, {'name': osname, 'path': path_mod})
+        mods['sys'] = proxy('sys', real_sys, {'platform': plat, 'getfilesystemencoding': lambda: enc[0],
+                                             'getfilesystemencodeerrors': lambda: enc[1]})
+        mods['platform'] = proxy('platform', real_platform, {'system': lambda: system})
+    return mods
 
 
 _copies = {}
@@ -112,6 +135,8 @@ HOST_TZ = {'linux-real': None, 'darwin': 'PST8PDT', 'scrambled-1': 'XJT-9', 'scr
 # the host's text encodings (file-system / locale): what an interpreter on that host reports
 HOST_ENC = {'linux-real': None, 'darwin': ('utf-8', 'surrogateescape'), 'scrambled-1': ('ascii', 'strict'),
             'scrambled-2': ('latin-1', 'surrogateescape'), 'sparse': ('cp1252', 'replace')}
+HOST_OS = {'linux-real': None, 'darwin': ('posix', 'darwin', 'Darwin'), 'scrambled-1': ('nt', 'win32', 'Windows'),
+           'scrambled-2': ('posix', 'freebsd14', 'FreeBSD'), 'sparse': ('nt', 'win32', 'Windows')}
 SYSTEM_TRACE_CODES = '/usr/share/misc/trace.codes'
 EXTRA_CODES = '0xf1230000\tHOST_ONLY_CODE_A\n0xf1230004\tHOST_ONLY_CODE_B\n0x40c0014\tHOST_RENAMED_open\n'
 
@@ -148,6 +173,21 @@ class host_environment:
                 if hasattr(obj, attr):
                     self._patched.append((obj, attr, getattr(obj, attr)))
                     setattr(obj, attr, fn)
+        ident = HOST_OS.get(self.host)
+        if ident is not None:
+            # which operating system the interpreter says it runs on (the modules already imported stay what they are)
+            import ntpath
+            import platform
+            import sys
+            osname, plat, system = ident
+            # (os.name / sys.platform are what the library's own copy sees through its substituted os / sys modules, see
+            #  fake_modules; faking them process-wide would break the standard library itself, e.g. pathlib)
+            subs = []
+            if osname == 'nt':
+                subs += [(os.path, 'normcase', ntpath.normcase)]
+            for obj, attr, val in subs:
+                self._patched.append((obj, attr, getattr(obj, attr)))
+                setattr(obj, attr, val)
         if self.host in ('darwin', 'scrambled-2'):
             real_open, real_exists, real_isfile = builtins.open, os.path.exists, os.path.isfile
             p_exists, p_isfile, p_open, p_read = pathlib.Path.exists, pathlib.Path.is_file, pathlib.Path.open, pathlib.Path.read_text
